@@ -161,6 +161,24 @@ def check_transaction(ctx, reports, before, after, detail, opk):
                             {**detail, 'handle': h, 'modification': mod, 'diff': first_difference(want, c)})
             seen_descr[mod][h] = c
             ctx.count('truth.descriptors_checked')
+    # a description modification part carries the changed states of its descriptor (all of them: a context descriptor has several)
+    for r in reports:
+        if r.name != 'DescriptionModificationReport' or r.version != v:
+            continue
+        by_descr = {}
+        for src, st, mod in r.states:
+            by_descr.setdefault(st.DescriptorHandle, set()).add(st.Handle if st.is_context_state else st.DescriptorHandle)
+        for mod, src, d in r.descriptors:
+            if mod == 'Del':
+                continue
+            want = {h for h in changed['states'] if h == d.Handle}
+            want |= {h for h in changed['ctx'] if dict(after['ctx'][h][1]).get('DescriptorHandle') == d.Handle}
+            got = by_descr.get(d.Handle, set())
+            ctx.count('truth.description_parts_checked')
+            if want - got:
+                ctx.witness(f'truth.description_part_states_incomplete.{opk}',
+                            'a DescriptionModificationReport part does not carry all changed states of its descriptor',
+                            {**detail, 'descriptor': d.Handle, 'missing': sorted(want - got), 'in_part': sorted(got)})
     # completeness / exactness of the union
     for label, seen, want in (('states', set(seen_states), changed['states']), ('context_states', set(seen_ctx), changed['ctx']),
                               ('created', set(seen_descr['Crt']), changed['descr_created']),
@@ -437,6 +455,102 @@ def w_order_explore(ctx: core.Ctx, arg):
     world.stop()
 
 
+def w_periodic_retrievability(ctx: core.Ctx, arg):
+    """the retrievability-driven periodic loop, run synchronously with a stub timer; foreign transactions at every point where the
+    loop thread holds neither lock; the PeriodicStates handed to the send functions must show the values of the version they are labelled with."""
+    import collections
+    import contextlib
+    import io
+    from sdc11073.provider import periodicreports
+    rng = ctx.rng('periodic', arg['i'])
+    mdib_file = MDIB_FILES[arg['i'] % len(MDIB_FILES)]
+    world = World(mdib_file, role_provider=False)
+    mdib = world.mdib
+    consumer, _ = world.add_consumer(with_mdib=False)
+    cat = mdibops.catalog(mdib)
+    for h in cat['context'][:2]:
+        mdibops.apply_op(mdib, {'op': 'context', 'sub': 'new_assoc', 'descr': h, 'new_handle': f'p_{h}', 'seed': 5, 'iface': 'classic'})
+    handles = cat['metric'][:3] + cat['alert'][:2] + cat['component'][:2] + cat['operational'][:1] + cat['context'][:2]
+    mdib.retrievability_periodic = collections.defaultdict(list, {1000: list(handles)})
+    hist = LiveHistory(mdib)
+    inst = Instrumented(mdib)
+    handler = periodicreports.PeriodicReportsHandler(mdib, world.provider.hosted_services, None)
+    captured = []
+    ses = world.provider.hosted_services.state_event_service
+    cs = world.provider.hosted_services.context_service
+    originals = {}
+    for obj, names in ((ses, ['send_periodic_metric_report', 'send_periodic_alert_report', 'send_periodic_component_state_report',
+                              'send_periodic_operational_state_report']), (cs, ['send_periodic_context_report'])):
+        for name in names:
+            orig = getattr(obj, name)
+            originals[(obj, name)] = orig
+
+            def wrapper(periodic_states_list, mdib_version_group, _orig=orig, _name=name):
+                for ps in periodic_states_list:
+                    captured.append((_name, ps.mdib_version, [(st, canon(st)) for st in ps.states]))
+                return _orig(periodic_states_list, mdib_version_group)
+            setattr(obj, name, wrapper)
+    rounds = {'n': 0}
+
+    class StubTimer:
+        def __init__(self, period_in_seconds):
+            pass
+
+        def remaining_time(self):
+            return 0.0
+
+        def wait_next_interval_begin(self):
+            rounds['n'] += 1
+            if rounds['n'] > arg['rounds']:
+                handler._run_periodic_reports_thread = False
+            return 0.0
+    real_timer = periodicreports.intervaltimer.IntervalTimer
+    periodicreports.intervaltimer.IntervalTimer = StubTimer
+    memo = {}
+    weights = {'metric': 3, 'alert': 2, 'component': 2, 'operational': 1, 'context': 3}
+    points_seen = collections.Counter()
+
+    def hook(ev, name):
+        points_seen[(ev, name)] += 1
+        if rng.random() < 0.7:
+            for _ in range(rng.randrange(1, 3)):
+                op = mdibops.gen_op(rng, mdib, memo, weights)
+                # aim at the handles the loop reports
+                if op.get('handles'):
+                    pool = [h for h in handles if h in cat.get(op['op'], [])]
+                    if pool:
+                        op['handles'] = [rng.choice(pool)]
+                mdibops.apply_op(mdib, op, memo)
+                ctx.count('periodic.loop.injected_transactions')
+    try:
+        handler._run_periodic_reports_thread = True
+        inst.set_hook(hook)
+        with contextlib.redirect_stdout(io.StringIO()):
+            handler._periodic_reports_send_loop()
+    finally:
+        inst.clear_hook()
+        periodicreports.intervaltimer.IntervalTimer = real_timer
+        for (obj, name), orig in originals.items():
+            setattr(obj, name, orig)
+    ctx.count('periodic.loop.rounds', rounds['n'])
+    ctx.extra.setdefault('periodic_loop_points', sorted({f'{e}:{n}' for e, n in points_seen}))
+    for name, label, states in captured:
+        snap_v = hist.by_version.get(label)
+        for st, c in states:
+            ctx.count('periodic.loop.states_checked')
+            is_ctx = st.is_context_state
+            h = st.Handle if is_ctx else st.DescriptorHandle
+            want = (snap_v['ctx'] if is_ctx else snap_v['states']).get(h) if snap_v else None
+            if want is None or not tolerant_equal(c, want):
+                ctx.witness('periodic.loop_label_mismatch', 'state copies collected by the periodic loop do not show the values of the MdibVersion they are labelled with',
+                            {'mdib_file': mdib_file, 'send': name, 'labelled_version': label, 'handle': h,
+                             'diff': first_difference(want, c) if want else 'not in MDIB at that version'})
+                break
+    ctx.case(('periodic-loop', mdib_file, arg['rounds']))
+    ctx.case(('periodic-loop', arg['i'], len(captured) > 0))
+    world.stop()
+
+
 def run(ctx: core.Ctx):
     ctx.rule = ('truth: seeded histories x {sync, async manager} x 4 sample MDIBs, 2 subscribers with different filters, every committed transaction '
                 'compared with the snapshot diff; schema: every distinct message on the wire validated; order: writer-observed lock-granularity '
@@ -446,7 +560,10 @@ def run(ctx: core.Ctx):
     jobs = [['w_truth', {'i': k, 'n': 2 if q else 24, 'len': 40 if q else 120}] for k in range(8 if q else 16)]
     jobs += [['w_order_stress', {'i': k, 'writers': 2 + k % 3 * 2, 'ops': 60 if q else 600}] for k in range(4 if q else 16)]
     jobs += [['w_order_explore', {'i': k, 'k': 1 + k % 2}] for k in range(2 if q else 8)]
+    jobs += [['w_periodic_retrievability', {'i': k, 'rounds': 15 if q else 150}] for k in range(4 if q else 8)]
     core.fanout(ctx, MODULE, 'dispatch', jobs, timeout=3000)
+    ctx.floor('periodic.loop.states_checked', 100)
+    ctx.floor('periodic.loop.injected_transactions', 20)
     ctx.floor('truth.transactions', 400)
     ctx.floor('truth.states_checked', 1000)
     ctx.floor('truth.descriptors_checked', 50)
